@@ -254,6 +254,11 @@ theorem shuffle_windows_permutation {α σ : Type} (roll : σ → Nat → Nat ×
 theorem shuffle_kmers_permutation {α σ : Type} (roll : σ → Nat → Nat × σ) (K : Nat) (x : List α) (s : σ) :
     (cshuffleKmers roll K x s).1.Perm x := cshuffleKmers_perm roll K x s
 
+/-- `esl-shuffle -A`: the columns of the shuffled alignment are a permutation of the input columns (every row is
+    rearranged by the same permutation), for every roll function -/
+theorem shuffle_msa_columns_permutation {σ : Type} (roll : σ → Nat → Nat × σ) (rows : List (List Char)) (s : σ) :
+    (cshuffle roll (transposeCols rows) s).1.Perm (transposeCols rows) := msaColShuffle_cols_perm roll rows s
+
 /-- hence lengths and every residue count are preserved -/
 theorem shuffle_mono_counts {σ : Type} (roll : σ → Nat → Nat × σ) (x : List Char) (s : σ) (c : Char) :
     (cshuffle roll x s).1.length = x.length ∧ (cshuffle roll x s).1.count c = x.count c :=
